@@ -16,7 +16,7 @@ import (
 
 type verifSource struct {
 	h   *Handler
-	run func(ctx context.Context) error
+	run func(ctx context.Context, c any, reload any) error
 }
 
 // same log prefix as the instance it replaces (the harness recognises "started"/"stopped: …" by it)
@@ -24,14 +24,14 @@ func (s *verifSource) Log(level logger.Level, format string, args ...any) {
 	s.h.Log(level, "[RPI Camera source] "+format, args...)
 }
 
-func (s *verifSource) Run(p defs.StaticSourceRunParams) error { return s.run(p.Context) }
+func (s *verifSource) Run(p defs.StaticSourceRunParams) error { return s.run(p.Context, p.Conf, p.ReloadConf) }
 
 func (s *verifSource) APISourceDescribe() *defs.APIPathSource {
 	return &defs.APIPathSource{Type: "rpiCameraSource", ID: ""}
 }
 
 func init() {
-	verifutil.Register("c19_set_instance", func(h any, run func(ctx context.Context) error) bool {
+	verifutil.Register("c19_set_instance", func(h any, run func(ctx context.Context, c any, reload any) error) bool {
 		hh, ok := h.(*Handler)
 		if !ok {
 			return false
